@@ -119,7 +119,10 @@ def handleCore (j : Json) : Except String Verdict := do
              why := "recorder ∘ sval ≠ id on a recorded value of a real derived type: sval.rs does not issue the calls the derive issues" }
   -- ---- from_type
   let ft ← getObj j "from_type"
-  let refused := traceRefused opts (flags.contains "maps") (flags.contains "nulls") (flags.contains "dataless")
+  -- a root `from_type` does not support at all (declared by the zoo: flag `badroot`; tied to the model's `recordRoot` and to
+  -- `C04_root_refused` in Driver/RoundtripBridge.lean) is refused under every option set
+  let refused := if flags.contains "badroot" then some "root-not-a-record"
+    else traceRefused opts (flags.contains "maps") (flags.contains "nulls") (flags.contains "dataless")
   match implCls ft with
   | "ok" => pure ()
   | "err" =>
@@ -186,7 +189,7 @@ def handle (j : Json) : Except String Verdict := do
   let opts := optsOfJson ((getObj j "options").toOption.getD Json.null)
   let rows ← (← getArr j "rows").toList.mapM svalOfJson
   let fields ← (← getArr j "schema").toList.mapM fieldOfJson
-  let b ← Driver.RoundtripBridge.check j opts rows fields (flags.contains "unordered")
+  let b ← Driver.RoundtripBridge.check j opts rows fields (flags.contains "unordered") (flags.contains "badroot")
   let v := { v with tags := v.tags ++ b.tags }
   match b.bad with
   | some (what, why) =>
